@@ -64,14 +64,15 @@ RenderOK ==
   WithRender =>
      \A o \in {QuickXmlDe, [SerdeXmlRs EXCEPT !.sort = "XmlName"]} :
         LET ss == ModelStructs(tree, o)
-        IN ReflectTags(tree, o, ss) = {} /\ OptionTags(tree, o, ss) = {}
+        IN OptionTags(tree, o, ss) = {}
 
-\* design level: which clauses of C04 / C14 the as-coded renderer violates on this tree (printed, not rejected:
-\* the check driver matches them against known_findings.json)
+\* design level: which clauses of C04 / C14 / C09 / C16 the as-coded renderer violates on this tree (printed, not
+\* rejected: the check driver matches them against known_findings.json)
 RenderJudge ==
   WithRender =>
      LET ss == ModelStructs(tree, QuickXmlDe)
-         tags == (IF DomC04(tree) THEN C04Tags(ss) ELSE {}) \cup NameTags(tree, QuickXmlDe, ss) \cup OrderTags(tree, QuickXmlDe, ss)
+         tags == (IF DomC04(tree) THEN C04Tags(ss) ELSE {}) \cup NameTags(tree, QuickXmlDe, ss)
+                 \cup OrderTags(tree, QuickXmlDe, ss) \cup ReflectTags(tree, QuickXmlDe, ss)
      IN IF tags = {} THEN TRUE ELSE PrintT("INFO " \o ToJson([tags |-> tags, ops |-> ops]))
 
 EmitCase == Emit => PrintT("REPLAY " \o ToJson([ops |-> ops, trees |-> trees]))
